@@ -1,0 +1,20 @@
+//go:build verif
+
+// Exports for the verification harness (/verif). Compiled only with -tags verif.
+package codecs
+
+// VerifUncompressLz4Block runs uncompressLz4Block on a destination of `capacity` bytes and reports a panic instead of
+// propagating it.
+func VerifUncompressLz4Block(src []byte, capacity int) (out []byte, err error, panicked bool) {
+	defer func() {
+		if recover() != nil {
+			out, err, panicked = nil, nil, true
+		}
+	}()
+	dst := make([]byte, capacity)
+	n, err := uncompressLz4Block(src, dst)
+	if err != nil {
+		return nil, err, false
+	}
+	return dst[:n], nil, false
+}
